@@ -33,6 +33,7 @@ import (
 	"strconv"
 	"strings"
 	"sync"
+	"sync/atomic"
 	"time"
 
 	"github.com/siglens/siglens/pkg/config"
@@ -490,9 +491,18 @@ func (w *c11cWorld) wait(th *c11cThread) {
 		if ev.point == "append" && w.lock == th.id {
 			th.pendingU = true
 		}
-	case <-time.After(60 * time.Second):
+	case <-time.After(c11cWait()):
 		w.stalled = true
 	}
+}
+
+// how long a resumed call (or a final search) may take before the replay calls it a stall: 60 s, generous because
+// the machine may be busy; the parent shortens it (env C11C_WAIT_S) once stalls have been confirmed by re-runs alone
+func c11cWait() time.Duration {
+	if n, err := strconv.Atoi(os.Getenv("C11C_WAIT_S")); err == nil && n > 0 {
+		return time.Duration(n) * time.Second
+	}
+	return 60 * time.Second
 }
 
 // label c<t>
@@ -630,7 +640,7 @@ func c11cReplay(line string) {
 	writer.VerifC11CPause = w.pauseHook
 	hooks.GlobalHooks.GetNextSuffixHook = w.suffixHook
 	watchdog := time.AfterFunc(170*time.Second, func() {
-		fmt.Println("worker-stall")
+		fmt.Println("worker-stall watchdog;" + strings.Join(w.steps, ","))
 		os.Exit(0)
 	})
 	defer watchdog.Stop()
@@ -698,7 +708,14 @@ func c11cReplay(line string) {
 	qw := &c11World{S: S, index: w.index, segNames: map[string]string{}, vidBlock: map[int]string{}, queries: map[int]*c11Query{}}
 	search := func(qid uint64) (map[int]int, string) {
 		q := &c11Query{id: -1, qid: qid, events: make(chan c11Event, 4)}
-		qw.runQuery(q)
+		done := make(chan struct{})
+		go func() { qw.runQuery(q); close(done) }()
+		select {
+		case <-done:
+		case <-time.After(c11cWait()):
+			fmt.Println("worker-stall final-search;" + strings.Join(w.steps, ","))
+			os.Exit(0)
+		}
 		seen := map[int]int{}
 		for _, v := range q.vids {
 			seen[v]++
@@ -948,8 +965,11 @@ var c11cFixed = []string{
 
 // ---------------------------------------------------------------- exec side (parent process)
 
-// stalls are re-run alone before they are reported: no other replay worker of this process runs meanwhile
+// stalls are re-run alone before they are reported: no other replay worker of this process runs meanwhile.  Once two
+// stalls have been confirmed that way the verdict of the run no longer depends on further ones: later stalls are
+// reported without a re-run and the workers wait 15 s instead of 60 s.
 var c11cAlone sync.RWMutex
+var c11cConfirmedStalls atomic.Int32
 
 func c11cExec(line string) Result {
 	S, labels, ok := c11cParse(line)
@@ -957,7 +977,11 @@ func c11cExec(line string) Result {
 		return Result{Out: "bad-op", Tags: []string{"malformed"}}
 	}
 	run := func() (string, []PropFail) {
-		out, stderr, err, timedOut := c11SpawnWorker([]string{"c11worker", "x"}, line+"\n", []string{"GOMEMLIMIT=2GiB", "GOMAXPROCS=4"}, 200*time.Second)
+		env := []string{"GOMEMLIMIT=2GiB", "GOMAXPROCS=4"}
+		if c11cConfirmedStalls.Load() >= 2 {
+			env = append(env, "C11C_WAIT_S=15")
+		}
+		out, stderr, err, timedOut := c11SpawnWorker([]string{"c11worker", "x"}, line+"\n", env, 200*time.Second)
 		if timedOut {
 			return "worker-timeout", []PropFail{{Sig: "conc-replay/worker-timeout", Msg: "replay worker did not finish within 200 s"}}
 		}
@@ -982,7 +1006,7 @@ func c11cExec(line string) Result {
 			fails = append(fails, PropFail{Sig: "conc/crash@" + c11CrashFrame(stderr), Msg: "replay worker died: " + msg + " " + trunc(stderr, 600)})
 		}
 		if strings.HasPrefix(first, "worker-stall") {
-			fails = append(fails, PropFail{Sig: "create/stall", Msg: "a scheduled step of an ingest call did not complete within 60 s although the pause points showed allSegStoresLock free (deadlock, or a lock taken where no pause point sees it); steps so far: " + strings.TrimPrefix(first, "worker-stall ")})
+			fails = append(fails, PropFail{Sig: "create/stall", Msg: "a scheduled step of an ingest call (or the search after all activity stopped) did not complete in time although the pause points showed allSegStoresLock free (deadlock, endless loop, or a lock taken where no pause point sees it); where;steps so far: " + strings.TrimPrefix(first, "worker-stall ")})
 			first = "worker-stall"
 		}
 		return first, fails
@@ -991,12 +1015,15 @@ func c11cExec(line string) Result {
 	first, fails := run()
 	c11cAlone.RUnlock()
 	retried := false
-	if first == "worker-stall" || first == "worker-timeout" {
+	if (first == "worker-stall" || first == "worker-timeout") && c11cConfirmedStalls.Load() < 2 {
 		// the machine may just be busy: once more, alone
 		c11cAlone.Lock()
 		first, fails = run()
 		c11cAlone.Unlock()
 		retried = true
+		if first == "worker-stall" || first == "worker-timeout" {
+			c11cConfirmedStalls.Add(1)
+		}
 	}
 	res := Result{Out: first, Fails: fails, Nontrivial: len(labels) >= 3, Tags: c11cTags(S, labels)}
 	if retried {
